@@ -38,9 +38,9 @@ def plan(tier, seed):
     n = 8
     for s in range(n):
         jobs.append({"variant": "c" if s % 2 else "py", "part": "kernel", "shard": s, "nshards": n, "params": {}})
-    nr = 8 if thorough else 4
+    nr = 16 if thorough else 4
     for s in range(nr):
-        jobs.append({"variant": "c" if s % 2 else "py", "part": "random", "shard": s, "nshards": nr, "params": {"n": 60000 if thorough else 25000}})
+        jobs.append({"variant": "c" if s % 2 else "py", "part": "random", "shard": s, "nshards": nr, "params": {"n": 250000 if thorough else 25000}})
     return jobs
 
 
